@@ -1,16 +1,50 @@
 //! Reads request lines from stdin, answers each on stdout (see lib.rs).
+//!
+//! Watchdog: a request that does not return within VERIF_WATCHDOG_SECS (default 120) is answered `HANG` and the process
+//! exits with status 3 (the stuck thread cannot be recovered); the driver restarts the runner on the remaining lines.
+//! A changed implementation that blocks for ever (a search thread waiting on an empty channel, an endless loop) thus
+//! becomes an answer that is judged like a panic instead of stalling the whole check.
 use std::io::{BufRead, BufWriter, Write};
+use std::sync::atomic::{AtomicU64, Ordering};
+use std::sync::Arc;
+use std::time::{Duration, SystemTime, UNIX_EPOCH};
+
+fn now_ms() -> u64 {
+    SystemTime::now().duration_since(UNIX_EPOCH).map_or(0, |d| d.as_millis() as u64)
+}
 
 fn main() {
     // keep panic messages of the code under test out of the way; the answer `PANIC` carries the information
     std::panic::set_hook(Box::new(|_| {}));
+    let limit_ms = std::env::var("VERIF_WATCHDOG_SECS").ok().and_then(|s| s.parse::<u64>().ok()).unwrap_or(120) * 1000;
+    // 0 = idle, otherwise the start time of the request being processed
+    let started = Arc::new(AtomicU64::new(0));
+    let (ans_tx, ans_rx) = std::sync::mpsc::channel::<String>();
+    let (req_tx, req_rx) = std::sync::mpsc::channel::<String>();
+    // the worker runs the requests (the real code runs on this thread, as before: one request at a time)
+    std::thread::Builder::new().stack_size(256 << 20).spawn(move || {
+        while let Ok(line) = req_rx.recv() {
+            let answer = inkayaku_verif_harness::run_line(line.trim_end_matches('\n'));
+            if ans_tx.send(answer).is_err() {
+                break;
+            }
+        }
+    }).unwrap();
     let stdin = std::io::stdin();
     let stdout = std::io::stdout();
     let mut out = BufWriter::new(stdout.lock());
     for line in stdin.lock().lines() {
         let line = line.unwrap();
-        let answer = inkayaku_verif_harness::run_line(line.trim_end_matches('\n'));
-        writeln!(out, "{}", answer).unwrap();
+        started.store(now_ms(), Ordering::SeqCst);
+        req_tx.send(line).unwrap();
+        match ans_rx.recv_timeout(Duration::from_millis(limit_ms)) {
+            Ok(answer) => writeln!(out, "{}", answer).unwrap(),
+            Err(_) => {
+                writeln!(out, "HANG").unwrap();
+                out.flush().unwrap();
+                std::process::exit(3);
+            }
+        }
     }
     out.flush().unwrap();
 }
